@@ -112,4 +112,49 @@ theorem daysFromCivil_ge_of_year_ge (y : Int) (m d : Nat) (hy : 10000 ≤ y) (hm
   · simp only [h, if_false]
     omega
 
+/-! day-number bounds by year, for the year checks of `Timestamp::parse` (0000 … 9999) and of `time` (−9999 … 9999) -/
+
+theorem daysFromCivil_le_of_year_le_neg1 (y : Int) (m d : Nat) (hy : y ≤ -1) (hm1 : 1 ≤ m) (hm2 : m ≤ 12)
+    (hd1 : 1 ≤ d) (hd2 : d ≤ 31) : daysFromCivil y m d ≤ -719529 := by
+  have hm : m = 1 ∨ m = 2 ∨ m = 3 ∨ m = 4 ∨ m = 5 ∨ m = 6 ∨ m = 7 ∨ m = 8 ∨ m = 9 ∨ m = 10 ∨ m = 11 ∨ m = 12 := by omega
+  unfold daysFromCivil encDoe
+  simp only
+  rcases hm with rfl | rfl | rfl | rfl | rfl | rfl | rfl | rfl | rfl | rfl | rfl | rfl <;> simp <;> omega
+
+theorem daysFromCivil_ge_of_year_ge_zero (y : Int) (m d : Nat) (hy : 0 ≤ y) (hm1 : 1 ≤ m) (hm2 : m ≤ 12)
+    (hd1 : 1 ≤ d) : -719528 ≤ daysFromCivil y m d := by
+  unfold daysFromCivil encDoe
+  simp only
+  by_cases h : m ≤ 2
+  · simp only [h, if_true]
+    have : m = 1 ∨ m = 2 := by omega
+    rcases this with rfl | rfl <;> omega
+  · simp only [h, if_false]
+    omega
+
+theorem daysFromCivil_le_of_year_le_9999 (y : Int) (m d : Nat) (hy : y ≤ 9999) (hm1 : 1 ≤ m) (hm2 : m ≤ 12)
+    (hd1 : 1 ≤ d) (hd2 : d ≤ 31) : daysFromCivil y m d ≤ 2932896 := by
+  have hm : m = 1 ∨ m = 2 ∨ m = 3 ∨ m = 4 ∨ m = 5 ∨ m = 6 ∨ m = 7 ∨ m = 8 ∨ m = 9 ∨ m = 10 ∨ m = 11 ∨ m = 12 := by omega
+  unfold daysFromCivil encDoe
+  simp only
+  rcases hm with rfl | rfl | rfl | rfl | rfl | rfl | rfl | rfl | rfl | rfl | rfl | rfl <;> simp <;> omega
+
+theorem daysFromCivil_le_of_year_le_neg10000 (y : Int) (m d : Nat) (hy : y ≤ -10000) (hm1 : 1 ≤ m) (hm2 : m ≤ 12)
+    (hd1 : 1 ≤ d) (hd2 : d ≤ 31) : daysFromCivil y m d ≤ -4371588 := by
+  have hm : m = 1 ∨ m = 2 ∨ m = 3 ∨ m = 4 ∨ m = 5 ∨ m = 6 ∨ m = 7 ∨ m = 8 ∨ m = 9 ∨ m = 10 ∨ m = 11 ∨ m = 12 := by omega
+  unfold daysFromCivil encDoe
+  simp only
+  rcases hm with rfl | rfl | rfl | rfl | rfl | rfl | rfl | rfl | rfl | rfl | rfl | rfl <;> simp <;> omega
+
+theorem daysFromCivil_ge_of_year_ge_neg9999 (y : Int) (m d : Nat) (hy : -9999 ≤ y) (hm1 : 1 ≤ m) (hm2 : m ≤ 12)
+    (hd1 : 1 ≤ d) : -4371587 ≤ daysFromCivil y m d := by
+  unfold daysFromCivil encDoe
+  simp only
+  by_cases h : m ≤ 2
+  · simp only [h, if_true]
+    have : m = 1 ∨ m = 2 := by omega
+    rcases this with rfl | rfl <;> omega
+  · simp only [h, if_false]
+    omega
+
 end S3V.Dto
